@@ -92,7 +92,9 @@ func c01Rules(p *Prog, r *Result, keyField string) *RuleSet {
 			}),
 		errNil("chain", "VerifyEntries returned nil", named("fdo.Voucher.VerifyEntries"), nil),
 		equal("owner-is-chain-end", "the key that verified ProveOVHdr equals the public key of the chain's last entry (or the header key)",
-			func(m *Matcher, v ssa.Value) bool { return keyField != "" && m.Prov(v).Has("field:"+keyField) && !chainEndLocal(m, v) }, chainEnd),
+			func(m *Matcher, v ssa.Value) bool {
+				return keyField != "" && m.Prov(v).Has("field:"+keyField) && !chainEndLocal(m, v)
+			}, chainEnd),
 		boolTrue("ovhdr-sig-true", "Sign1.Verify of the decoded ProveOVHdr under the key from its unprotected header returned true", named("fdo/cose.Sign1.Verify"), 0, ovhdrVerify),
 		errNil("ovhdr-sig-noerr", "that Verify returned no error", named("fdo/cose.Sign1.Verify"), ovhdrVerify),
 		equal("nonce-echo", "the decoded ProveOVHdr nonce equals the fresh nonce generated for this HelloDevice",
